@@ -1,8 +1,174 @@
-//! Matrix / LU operation sequences (C16, C17) -- filled in later.
+//! Matrix / LU operation sequences (C16, C17).
 use std::collections::HashMap;
-pub fn run_matrix(_kv: &HashMap<String, String>) -> String {
-    "unimplemented\n".to_string()
+use std::panic::{catch_unwind, AssertUnwindSafe};
+
+use ivp::matrix::{lin_solve, lu_decomp, Matrix, MatrixStorage};
+
+use crate::{hx, hxlist, unhx, unlist};
+
+fn parse_st(s: &str) -> MatrixStorage {
+    if s == "identity" {
+        MatrixStorage::Identity
+    } else if s == "full" {
+        MatrixStorage::Full
+    } else {
+        let p: Vec<&str> = s.split('-').collect();
+        MatrixStorage::Banded { ml: p[1].parse().unwrap(), mu: p[2].parse().unwrap() }
+    }
 }
-pub fn run_lu(_kv: &HashMap<String, String>) -> String {
-    "unimplemented\n".to_string()
+
+fn ctor(s: &str) -> Matrix {
+    let p: Vec<&str> = s.split(':').collect();
+    let u = |i: usize| -> usize { p[i].parse().unwrap() };
+    match p[0] {
+        "identity" => Matrix::identity(u(1)),
+        "zeros" => Matrix::zeros(u(1), u(2)),
+        "full" => Matrix::full(u(1), u(2)),
+        "square" => Matrix::square(u(1)),
+        "banded" => Matrix::banded(u(1), u(2), u(3)),
+        "lower" => Matrix::lower_triangular(u(1)),
+        "upper" => Matrix::upper_triangular(u(1)),
+        "diag" => Matrix::diagonal(unlist(&format!("{}:{}", p[1], p.get(2).unwrap_or(&"")))),
+        "fromvec" => Matrix::from_vec(u(1), u(2), unlist(&format!("{}:{}", p[3], p.get(4).unwrap_or(&"")))),
+        "fromstorage" => Matrix::from_storage(u(1), u(2), parse_st(p[3])),
+        _ => panic!("ctor"),
+    }
+}
+
+fn build(c: &str, w: &str) -> Option<Matrix> {
+    catch_unwind(AssertUnwindSafe(|| {
+        let mut m = ctor(c);
+        // writes: "k:i/j/hex,i/j/hex"
+        let (_, body) = w.split_once(':').unwrap_or(("0", ""));
+        if !body.is_empty() {
+            for t in body.split(',') {
+                let q: Vec<&str> = t.split('/').collect();
+                let (i, j): (usize, usize) = (q[0].parse().unwrap(), q[1].parse().unwrap());
+                m[(i, j)] = unhx(q[2]);
+            }
+        }
+        m
+    }))
+    .ok()
+}
+
+fn st_name(s: &MatrixStorage) -> String {
+    match s {
+        MatrixStorage::Identity => "identity".into(),
+        MatrixStorage::Full => "full".into(),
+        MatrixStorage::Banded { ml, mu } => format!("banded-{}-{}", ml, mu),
+    }
+}
+
+pub fn run_matrix(kv: &HashMap<String, String>) -> String {
+    let mut out = String::new();
+    let a = match build(&kv["a"], kv.get("aw").map(|s| s.as_str()).unwrap_or("0:")) {
+        Some(a) => a,
+        None => return "A panic\n".into(),
+    };
+    out.push_str("A ok\n");
+    let bspec = kv.get("b").map(|s| s.as_str()).unwrap_or("none");
+    let b = if bspec == "none" {
+        None
+    } else {
+        match build(bspec, kv.get("bw").map(|s| s.as_str()).unwrap_or("0:")) {
+            Some(b) => Some(b),
+            None => return out + "B panic\n",
+        }
+    };
+    let op = kv.get("op").map(|s| s.as_str()).unwrap_or("none").to_string();
+    let r = catch_unwind(AssertUnwindSafe(|| {
+        let p: Vec<&str> = op.split(':').collect();
+        match p[0] {
+            "none" => a.clone(),
+            "add" => a.clone() + b.clone().unwrap(),
+            "sub" => a.clone() - b.clone().unwrap(),
+            "addassign" => {
+                let mut x = a.clone();
+                x += b.clone().unwrap();
+                x
+            }
+            "subassign" => {
+                let mut x = a.clone();
+                x -= b.clone().unwrap();
+                x
+            }
+            "cadd" => a.clone().component_add(unhx(p[1])),
+            "csub" => a.clone().component_sub(unhx(p[1])),
+            "cmul" => a.clone().component_mul(unhx(p[1])),
+            "cmulmut" => {
+                let mut x = a.clone();
+                x.component_mul_mut(unhx(p[1]));
+                x
+            }
+            _ => panic!("op"),
+        }
+    }));
+    let r = match r {
+        Ok(r) => r,
+        Err(_) => return out + "op panic\n",
+    };
+    out.push_str(&format!("R {} {} {}\n", st_name(&r.storage), r.n, r.m));
+    out.push_str(&format!("data {}\n", hxlist(&r.data)));
+    for i in 0..r.n {
+        let mut row = Vec::new();
+        for j in 0..r.m {
+            match catch_unwind(AssertUnwindSafe(|| r[(i, j)])) {
+                Ok(v) => row.push(hx(v)),
+                Err(_) => row.push("P".to_string()),
+            }
+        }
+        out.push_str(&format!("row {} {}\n", i, row.join(",")));
+    }
+    // reads just outside the shape must panic
+    let oob = catch_unwind(AssertUnwindSafe(|| r[(r.n, 0)])).is_err();
+    out.push_str(&format!("oob {}\n", if oob { "P" } else { "ok" }));
+    match catch_unwind(AssertUnwindSafe(|| r.is_identity())) {
+        Ok(v) => out.push_str(&format!("isid {}\n", v)),
+        Err(_) => out.push_str("isid P\n"),
+    }
+    out
+}
+
+pub fn run_lu(kv: &HashMap<String, String>) -> String {
+    let mut out = String::new();
+    let n: usize = kv["n"].parse().unwrap();
+    let cols: usize = kv["cols"].parse().unwrap();
+    let iplen: usize = kv["iplen"].parse().unwrap();
+    let adata = unlist(&kv["a"]);
+    let b0 = unlist(&kv["b"]);
+    let mut a = Matrix::from_vec(n, cols, adata);
+    let mut ip = vec![7usize; iplen];
+    let res = catch_unwind(AssertUnwindSafe(|| lu_decomp(&mut a, &mut ip)));
+    match res {
+        Err(_) => return "res panic\n".into(),
+        Ok(Err(e)) => {
+            let s = format!("{:?}", e);
+            let kind = if s.contains("Singular") {
+                "singular"
+            } else if s.contains("NonSquare") {
+                "nonsquare"
+            } else if s.contains("PivotSize") {
+                "pivotsize"
+            } else {
+                "othererr"
+            };
+            return format!("res {}\n", kind);
+        }
+        Ok(Ok(())) => {}
+    }
+    out.push_str("res ok\n");
+    out.push_str(&format!("lu {}\n", hxlist(&a.data)));
+    let nip = if n == 1 { 1 } else { n - 1 };
+    out.push_str(&format!("ip {}\n", ip[..nip].iter().map(|x| x.to_string()).collect::<Vec<_>>().join(",")));
+    let before = a.clone();
+    let mut b = b0.clone();
+    let r = catch_unwind(AssertUnwindSafe(|| lin_solve(&a, &mut b, &ip)));
+    if r.is_err() {
+        return out + "solve panic\n";
+    }
+    out.push_str(&format!("x {}\n", hxlist(&b)));
+    let same = before.data.iter().zip(a.data.iter()).all(|(p, q)| p.to_bits() == q.to_bits()) && before.storage == a.storage;
+    out.push_str(&format!("a_untouched {}\n", same));
+    out
 }
